@@ -129,6 +129,11 @@ func (vc *VC) doCall(fr *frame, st *State, instr ssa.Instruction, c *ssa.CallCom
 		if fv.Fn != nil && len(fv.Fn.Alts) > 0 {
 			return vc.callAlternatives(fr, st, fv.Fn.Alts, args, rt, pos)
 		}
+		if fv.Fn != nil && strings.HasSuffix(fv.Fn.Fn.Name(), "$bound") && len(fv.Fn.Fn.Blocks) > 0 {
+			// a bound-method value: same treatment as in a case split over several closures (the wrapper
+			// is inlined, so that the receiver's role contract applies)
+			return vc.callAlternatives(fr, st, []FuncAlt{{Cond: p.True(), F: fv.Fn}}, args, rt, pos)
+		}
 		if fv.Fn != nil {
 			callee = fv.Fn.Fn
 			freeVars = fv.Fn.Bindings
@@ -153,7 +158,7 @@ func (vc *VC) doCall(fr *frame, st *State, instr ssa.Instruction, c *ssa.CallCom
 			vc.pendingRoles = fv.Fn.Roles
 		}
 	}
-	if o := callee.Origin(); o != nil {
+	if o := callee.Origin(); o != nil && (len(callee.Blocks) == 0 || callee.Synthetic == "") {
 		callee = o
 	}
 	key := FuncKey(callee)
@@ -773,6 +778,18 @@ func (vc *VC) allocatesFrame(st, old *State, ct *Contract, what string) {
 }
 
 func (e *Engine) resolveTypeName(pkgPath, name string) (types.Type, bool) {
+	if strings.HasPrefix(name, "[]") {
+		et, ok := e.resolveTypeName(pkgPath, name[2:])
+		if !ok {
+			return nil, false
+		}
+		return types.NewSlice(et), true
+	}
+	if !strings.Contains(name, ".") {
+		if tn, ok := types.Universe.Lookup(name).(*types.TypeName); ok {
+			return tn.Type(), true
+		}
+	}
 	ptr := false
 	if strings.HasPrefix(name, "*") {
 		ptr = true
@@ -1118,6 +1135,10 @@ func roleField(recv ssa.Value) string {
 	u, ok := recv.(*ssa.UnOp)
 	if !ok || u.Op != token.MUL {
 		return ""
+	}
+	if al, isAlloc := u.X.(*ssa.Alloc); isAlloc && al.Comment != "" {
+		// a named local variable holding an interface value: its name is the role ("(Iface_local).Method")
+		return al.Comment
 	}
 	fa, ok := u.X.(*ssa.FieldAddr)
 	if !ok {
